@@ -22,9 +22,15 @@ fn out_cell(capacity: u64) -> packed::CellOutput {
 }
 
 fn build_tx(inputs: &[(packed::Byte32, u32, u64)], deps: &[(packed::Byte32, u32)], outputs: &[packed::CellOutput], salt: u32) -> packed::Transaction {
+    build_tx_g(inputs, deps, &[], outputs, salt)
+}
+
+fn build_tx_g(inputs: &[(packed::Byte32, u32, u64)], deps: &[(packed::Byte32, u32)], groups: &[(packed::Byte32, u32)], outputs: &[packed::CellOutput], salt: u32) -> packed::Transaction {
+    let mut cell_deps: Vec<packed::CellDep> = deps.iter().map(|(h, i)| packed::CellDep::new_builder().out_point(packed::OutPoint::new(h.clone(), *i)).dep_type(DepType::Code.into()).build()).collect();
+    cell_deps.extend(groups.iter().map(|(h, i)| packed::CellDep::new_builder().out_point(packed::OutPoint::new(h.clone(), *i)).dep_type(DepType::DepGroup.into()).build()));
     let raw = packed::RawTransaction::new_builder()
         .version(0u32.pack())
-        .cell_deps(deps.iter().map(|(h, i)| packed::CellDep::new_builder().out_point(packed::OutPoint::new(h.clone(), *i)).dep_type(DepType::Code.into()).build()).collect::<Vec<_>>().pack())
+        .cell_deps(cell_deps.pack())
         .inputs(inputs.iter().map(|(h, i, since)| packed::CellInput::new(packed::OutPoint::new(h.clone(), *i), *since)).collect::<Vec<_>>().pack())
         .outputs(outputs.to_vec().pack())
         .outputs_data(outputs.iter().map(|_| Bytes::new().pack()).collect::<Vec<_>>().pack())
@@ -62,6 +68,17 @@ pub(crate) fn run(seed: u64, n: u64, out: &mut Out) {
         };
         storage.add_fetched_tx(&dep_tx, &hdr(1));
         let dep = (dep_tx.calc_tx_hash(), 0u32);
+        // two dep groups: one listing the binary's cell, one that also lists a cell nobody knows
+        let group_tx = {
+            let mk = |pts: Vec<packed::OutPoint>| -> packed::Bytes { packed::OutPointVec::new_builder().set(pts).build().as_bytes().pack() };
+            let good = mk(vec![packed::OutPoint::new(dep.0.clone(), 0)]);
+            let bad = mk(vec![packed::OutPoint::new(dep.0.clone(), 0), packed::OutPoint::new([0x79u8; 32].pack(), 0)]);
+            let o = packed::CellOutput::new_builder().capacity(10_000_0000_0000u64.pack()).build();
+            let raw = packed::RawTransaction::new_builder().outputs(vec![o.clone(), o].pack()).outputs_data(vec![good, bad].pack()).build();
+            packed::Transaction::new_builder().raw(raw).build()
+        };
+        storage.add_fetched_tx(&group_tx, &hdr(3));
+        let group = group_tx.calc_tx_hash();
         let fund = build_tx(&[], &[], &(0..6).map(|_| out_cell(cap)).collect::<Vec<_>>(), 7 + world as u32);
         storage.add_fetched_tx(&fund, &hdr(2));
         let fund_hash = fund.calc_tx_hash();
@@ -88,6 +105,8 @@ pub(crate) fn run(seed: u64, n: u64, out: &mut Out) {
                     let input: (packed::Byte32, u32) = if parent_pending { (accepted[rng.below(accepted.len() as u64) as usize].calc_tx_hash(), 0) } else if !free.is_empty() { free[rng.below(free.len() as u64) as usize].clone() } else { (fund_hash.clone(), 0) };
                     let mut inputs = vec![(input.0.clone(), input.1, 0u64)];
                     let mut deps = vec![dep.clone()];
+                    let mut groups: Vec<(packed::Byte32, u32)> = Vec::new();
+                    if rng.chance(1, 3) { deps.clear(); groups.push((group.clone(), 0)); }   // the code reached through a dep group
                     let mut outputs = vec![out_cell(cap - 1_0000_0000)];
                     // an output is known if its transaction is stored (the funding transaction) or still in the pool
                     let known_input = |h: &packed::Byte32| h == &fund_hash || pending.read().unwrap().get(h).is_some();
@@ -95,19 +114,20 @@ pub(crate) fn run(seed: u64, n: u64, out: &mut Out) {
                     let mut what: &'static str = if !expect_ok { "spends-evicted-parent" } else if parent_pending { "valid-spends-pending" } else { "valid" };
                     if expect_ok && rng.chance(1, 2) {
                         expect_ok = false;
-                        match rng.below(9) {
+                        match rng.below(10) {
+                            9 => { what = "dep-group-with-unknown-member"; deps.clear(); groups = vec![(group.clone(), 1)]; }
                             0 => { what = "outputs-exceed-inputs"; outputs = vec![out_cell(cap + 1)]; }
                             1 => { what = "capacity-below-occupied"; outputs = vec![out_cell(1_0000_0000)]; }
                             2 => { what = "duplicate-input"; inputs.push(inputs[0].clone()); }
                             3 => { what = "unknown-input"; inputs = vec![([0x77u8; 32].pack(), 0, 0)]; }
-                            4 => { what = "unknown-cell-dep"; deps = vec![([0x78u8; 32].pack(), 0)]; }
+                            4 => { what = "unknown-cell-dep"; deps = vec![([0x78u8; 32].pack(), 0)]; groups.clear(); }
                             5 => { what = "immature-since"; inputs[0].2 = 1_000_000; }              // absolute block number far above the tip
                             6 => { what = "no-outputs"; outputs.clear(); }
-                            7 => { what = "missing-code-dep"; deps.clear(); }
+                            7 => { what = "missing-code-dep"; deps.clear(); groups.clear(); }
                             _ => { what = "input-index-out-of-range"; inputs[0].1 = 99; }
                         }
                     }
-                    let tx = build_tx(&inputs, &deps, &outputs, rng.next() as u32);
+                    let tx = build_tx_g(&inputs, &deps, &groups, &outputs, rng.next() as u32);
                     let h = tx.calc_tx_hash();
                     // a byte-identical re-submission now and then
                     let tx = if expect_ok && !accepted.is_empty() && rng.chance(1, 5) {
